@@ -405,6 +405,9 @@ func (a *SAct) coq() string {
 		return "ACancelServeCtx"
 	case "hstep":
 		return fmt.Sprintf("AHandlerStep %d %s", a.H, a.Hop.coq())
+	case "peerb":
+		// not an action on THIS connection: the environment action that changes nothing
+		return "ABlockWrites false"
 	}
 	panic("unknown op " + a.Op)
 }
@@ -478,6 +481,11 @@ type svRig struct {
 	wblocked    bool
 	panicked    string
 	allWrites   []*Rpc
+	// a second connection served by the SAME goat.Server (op "peerb"): outside the model; its handlers are autonomous
+	epB     *Endpoint
+	bSent   []int64 // message bodies delivered on connection B
+	bRecv   []int64 // message bodies the handlers of connection B received, in order
+	bOpened int
 }
 
 func (r *svRig) ev(s string) {
@@ -565,8 +573,30 @@ func (r *svRig) unaryImpl(ctx context.Context, req []byte) ([]byte, bool, error)
 	}
 }
 
+// a stream handler of connection B: reads everything it is sent, then returns
+func (r *svRig) peerBStream(s grpc.ServerStream) error {
+	r.mu.Lock()
+	r.bOpened++
+	r.mu.Unlock()
+	for {
+		var m wrapperspb.BytesValue
+		if err := s.RecvMsg(&m); err != nil {
+			if err == io.EOF {
+				return nil
+			}
+			return err
+		}
+		r.mu.Lock()
+		r.bRecv = append(r.bRecv, tokenOf(m.Value))
+		r.mu.Unlock()
+	}
+}
+
 func (r *svRig) streamImpl(kind string, s grpc.ServerStream) error {
 	ctx := s.Context()
+	if md, _ := metadata.FromIncomingContext(ctx); len(md.Get("conn")) == 1 && md.Get("conn")[0] == "B" {
+		return r.peerBStream(s)
+	}
 	h := r.enter(false, ctx, 0, s)
 	for {
 		op := <-h.gate
@@ -773,6 +803,21 @@ func (r *svRig) do(a *SAct) bool {
 		}
 	case "tick":
 		time.Sleep(time.Duration(a.D) * time.Millisecond)
+	case "peerb":
+		// an envelope on a SECOND connection of the same Server (started at its first envelope)
+		if r.epB == nil {
+			r.epB = NewEndpoint("serverB")
+			epB := r.epB
+			go func() { _ = r.srv.Serve(context.Background(), epB) }()
+		}
+		rpc := a.F.build(100000 + len(r.bSent))
+		if rpc.Header != nil {
+			rpc.Header.Headers = append(rpc.Header.Headers, &goatorepo.KeyValue{Key: "conn", Value: "B"})
+		}
+		if a.F.Body != nil && a.F.Rst == "" && a.F.Trl == "" {
+			r.bSent = append(r.bSent, *a.F.Body)
+		}
+		r.epB.Deliver(rpc)
 	case "wfail":
 		if a.On {
 			var e error = errWriteInjected
@@ -850,6 +895,16 @@ type svResult struct {
 	CoqObs  []string
 	Writes  []*Rpc
 	Leaked  bool
+	BSent   []int64 // connection B (op "peerb"): message bodies delivered / received by its handlers
+	BRecv   []int64
+}
+
+func coqZList(l []int64) string {
+	items := make([]string, len(l))
+	for i, v := range l {
+		items[i] = coqZ(v)
+	}
+	return coqList(items)
 }
 
 // runServerScenario drives the real server through the actions produced by next (nil = end), one at a
@@ -922,6 +977,9 @@ func runServerScenario(t *testing.T, idx int, kind string, next func(r *svRig, s
 		wd.mu.Lock()
 		wd.active = false
 		wd.mu.Unlock()
+		rig.mu.Lock()
+		res.BSent, res.BRecv = append([]int64{}, rig.bSent...), append([]int64{}, rig.bRecv...)
+		rig.mu.Unlock()
 		// cleanup, not compared with the model: end the connection, let every handler return
 		ep.UnblockWrites()
 		rig.srv.Stop()
